@@ -34,13 +34,15 @@ var RepoDir = "/repo"
 // Prog is the resolved program: type-checked packages, SSA, and (lazily) the
 // VTA call graph.
 type Prog struct {
-	GOOS   string
-	Pkgs   []*packages.Package
-	AllPkg map[string]*packages.Package
-	Fset   *token.FileSet
-	SSA    *ssa.Program
-	Fns    map[*ssa.Function]bool
-	byKey  map[string]*ssa.Function
+	GOOS     string
+	Pkgs     []*packages.Package
+	AllPkg   map[string]*packages.Package
+	Fset     *token.FileSet
+	SSA      *ssa.Program
+	wrappers []*ssa.Function
+	rawKey   map[string]*ssa.Function
+	Fns      map[*ssa.Function]bool
+	byKey    map[string]*ssa.Function
 
 	// ModFns is the sorted list of functions (including closures and
 	// instantiations) whose package is inside the module.
@@ -114,6 +116,60 @@ func Load(goos string) (p *Prog, err error) {
 		}
 		p.byKey[k] = fn
 	}
+	// thin wrappers: the name stands for the wrapped implementation when nobody else uses it
+	implAlias = map[*ssa.Function]*ssa.Function{}
+	users := map[*ssa.Function]map[*ssa.Function]bool{}
+	for _, fn := range p.ModFns {
+		if strings.HasPrefix(fn.Synthetic, "wrapper for") {
+			continue // the pointer-receiver wrapper the compiler adds for a value method is not a user
+		}
+		for _, b := range fn.Blocks {
+			for _, in := range b.Instrs {
+				for _, op := range in.Operands(nil) {
+					if op == nil || *op == nil {
+						continue
+					}
+					if callee, ok := (*op).(*ssa.Function); ok && InModule(callee) {
+						if users[callee] == nil {
+							users[callee] = map[*ssa.Function]bool{}
+						}
+						users[callee][fn] = true
+					}
+				}
+			}
+		}
+	}
+	for _, fn := range p.ModFns {
+		impl := thinWrapperCallee(fn)
+		if impl == nil || len(users[impl]) != 1 || !users[impl][fn] {
+			continue
+		}
+		if _, taken := implAlias[impl]; taken {
+			continue
+		}
+		implAlias[impl] = fn
+	}
+	isWrapper := map[*ssa.Function]bool{}
+	for impl, w := range implAlias {
+		wk := strings.ReplaceAll(strings.ReplaceAll(w.String(), ModInternal, ""), ModPath+".", "main.")
+		if p.rawKey == nil {
+			p.rawKey = map[string]*ssa.Function{}
+		}
+		p.rawKey[wk] = w
+		p.byKey[wk] = impl
+		p.wrappers = append(p.wrappers, w)
+		isWrapper[w] = true
+	}
+	if len(isWrapper) > 0 {
+		// the wrappers are glue: per-function rules look at the implementation, which carries the wrapper's name
+		kept := p.ModFns[:0]
+		for _, fn := range p.ModFns {
+			if !isWrapper[fn] {
+				kept = append(kept, fn)
+			}
+		}
+		p.ModFns = kept
+	}
 	sort.Slice(p.ModFns, func(i, j int) bool {
 		a, b := p.ModFns[i], p.ModFns[j]
 		if ka, kb := FuncKey(a), FuncKey(b); ka != kb {
@@ -179,13 +235,83 @@ func FuncKey(fn *ssa.Function) string {
 		return "<nil>"
 	}
 	s := fn.String()
+	// a function whose only use is a thin wrapper that just calls it is known under the wrapper's name
+	root := fn
+	for root.Parent() != nil {
+		root = root.Parent()
+	}
+	if w, ok := implAlias[root]; ok {
+		s = w.String() + strings.TrimPrefix(s, root.String())
+	}
 	s = strings.ReplaceAll(s, ModInternal, "")
 	s = strings.ReplaceAll(s, ModPath+".", "main.")
 	return s
 }
 
-// Fn returns the module function with the given key or nil.
+// Fn returns the module function with the given key or nil.  When the
+// function of that name is a thin wrapper (its body only calls another
+// function of the package with its own parameters and returns the results —
+// what an "extract function" refactoring leaves behind) and the wrapped
+// function has no other user, the wrapped function is returned: it holds the
+// code the name stands for.
 func (p *Prog) Fn(key string) *ssa.Function { return p.byKey[key] }
+
+// implAlias maps a wrapped implementation to its thin wrapper (see Fn).
+var implAlias = map[*ssa.Function]*ssa.Function{}
+
+// WrapperOf returns the thin wrapper fn is known by, or nil.
+func WrapperOf(fn *ssa.Function) *ssa.Function { return implAlias[fn] }
+
+// thinWrapperCallee returns the function fn delegates to when fn is a thin
+// wrapper.
+func thinWrapperCallee(fn *ssa.Function) *ssa.Function {
+	if fn == nil || len(fn.Blocks) != 1 || fn.Recover != nil || fn.Parent() != nil {
+		return nil
+	}
+	var call *ssa.Call
+	var ret *ssa.Return
+	for _, in := range fn.Blocks[0].Instrs {
+		switch x := in.(type) {
+		case *ssa.DebugRef, *ssa.Extract:
+		case *ssa.Call:
+			if call != nil {
+				return nil
+			}
+			call = x
+		case *ssa.Return:
+			ret = x
+		default:
+			return nil
+		}
+	}
+	if call == nil || ret == nil {
+		return nil
+	}
+	callee := call.Call.StaticCallee()
+	if callee == nil || callee == fn || callee.Blocks == nil || callee.Pkg != fn.Pkg || callee.Parent() != nil || len(call.Call.Args) != len(fn.Params) {
+		return nil
+	}
+	for i, a := range call.Call.Args {
+		if a != ssa.Value(fn.Params[i]) {
+			return nil
+		}
+	}
+	switch len(ret.Results) {
+	case 0:
+	case 1:
+		if ret.Results[0] != ssa.Value(call) {
+			return nil
+		}
+	default:
+		for i, rv := range ret.Results {
+			ex, ok := rv.(*ssa.Extract)
+			if !ok || ex.Tuple != ssa.Value(call) || ex.Index != i {
+				return nil
+			}
+		}
+	}
+	return callee
+}
 
 // Pos renders a position relative to the repo root.
 func (p *Prog) Pos(pos token.Pos) string {
@@ -291,4 +417,56 @@ func (p *Prog) FuncDecl(short, name string) (*ast.FuncDecl, *packages.Package) {
 		}
 	}
 	return nil, pk
+}
+
+// SameFn reports whether a and b are the same function up to thin wrappers
+// (see Prog.Fn): a call of the wrapper is a call of the implementation.
+func SameFn(a, b *ssa.Function) bool {
+	if a == nil || b == nil {
+		return false
+	}
+	if a == b {
+		return true
+	}
+	if w := implAlias[a]; w != nil && w == b {
+		return true
+	}
+	if w := implAlias[b]; w != nil && w == a {
+		return true
+	}
+	return false
+}
+
+// Impl returns the implementation a thin wrapper stands for (see Prog.Fn), or
+// fn itself.
+func Impl(fn *ssa.Function) *ssa.Function {
+	if impl := thinWrapperCallee(fn); impl != nil && implAlias[impl] == fn {
+		return impl
+	}
+	return fn
+}
+
+// Wrappers lists the thin wrappers that were taken out of ModFns (see Fn).
+func (p *Prog) Wrappers() []*ssa.Function { return p.wrappers }
+
+// Callee is cc.StaticCallee() with thin wrappers resolved to the
+// implementation they stand for (see Prog.Fn).
+func Callee(cc *ssa.CallCommon) *ssa.Function {
+	if cc == nil {
+		return nil
+	}
+	sc := cc.StaticCallee()
+	if sc == nil {
+		return nil
+	}
+	return Impl(sc)
+}
+
+// FnRaw is Fn without the thin-wrapper resolution: the function that is
+// declared under that name.
+func (p *Prog) FnRaw(key string) *ssa.Function {
+	if w, ok := p.rawKey[key]; ok {
+		return w
+	}
+	return p.byKey[key]
 }
